@@ -945,7 +945,10 @@ func (d *Data) aggregateBlockChanges(v dvid.VersionID, svmap *VCache, ch <-chan 
 			if supervoxel > maxLabel {
 				maxLabel = supervoxel
 			}
-			label, _ := svmap.mapLabel(supervoxel, mappedVersions)
+			label, found := svmap.mapLabel(supervoxel, mappedVersions)
+			if !found {
+				label = supervoxel // no mapping within this version's ancestry (may be mapped on other branches)
+			}
 			labelset[label] = struct{}{}
 		}
 	}
